@@ -56,7 +56,7 @@ func c16(w *World) {
 		sc.Settle()
 		sc.P.Take()
 	}
-	n := 1 + w.W.Draw(5)
+	n := 1 + w.W.Draw(w.Deep(5))
 	for i := 0; i < n && len(w.Viol) == 0 && !sc.P.EOF; i++ {
 		typ := []string{"A", "5", "0", "1", "2"}[w.W.Draw(5)]
 		var extra []Field
